@@ -128,7 +128,7 @@ pub fn op_strategy(p: &Profile) -> BoxedStrategy<Op> {
     let srv_publish = (0u8..3, 0u8..4, prop::bool::weighted(0.2), 0u8..3, if p.aliases { option::weighted(0.5, 0u16..5).boxed() } else { Just(None).boxed() }, prop::bool::weighted(0.4), 0u8..20)
         .prop_map(|(qos, pid, dup, topic, alias, skip_topic, size)| Op::SrvPublish { qos, pid, dup, topic, alias, skip_topic, size });
     let srv_pubrel = (0u8..4).prop_map(|pid| Op::SrvPubrel { pid });
-    let adv_kinds = vec![Adv::WrongTypeAck, Adv::UnknownIdAck, Adv::DuplicateAck, Adv::ReasonCountMismatch, Adv::Auth, Adv::SecondConnack, Adv::Garbage, Adv::Truncated, Adv::UnsolicitedPingresp, Adv::PublishPidZero, Adv::BadAlias, Adv::PubcompBeforePubrel, Adv::ServerDisconnectBeforeConnack, Adv::OversizedPacket];
+    let adv_kinds = vec![Adv::WrongTypeAck, Adv::UnknownIdAck, Adv::DuplicateAck, Adv::ReasonCountMismatch, Adv::Auth, Adv::SecondConnack, Adv::Garbage, Adv::Truncated, Adv::UnsolicitedPingresp, Adv::PublishPidZero, Adv::BadAlias, Adv::PubcompBeforePubrel, Adv::ServerDisconnectBeforeConnack, Adv::OversizedPacket, Adv::ClientOnlyPacket];
     let adversary = (pick(adv_kinds), any::<u16>()).prop_map(|(kind, ix)| Op::Adversary { kind, ix });
     let advance = prop_oneof![
         3 => prop_oneof![Just(0u32), Just(1u32), Just(49u32), Just(50u32), Just(51u32), Just(999u32), Just(1000u32), Just(1500u32), Just(30_000u32)].prop_map(AdvKind::Ms),
